@@ -417,7 +417,7 @@ PROPS = {
     },
     "C18": {
         "modules": ["SxVerif.Props.C18"],
-        "components": ["parse", "e2erate", "e2efill", "e2eapp"],
+        "components": ["parse", "e2erate", "e2efill", "e2eapp", "e2e"],
         "trusted_base": [
             "modelled, not verified: strconv.ParseUint(.,10,16) / ParseInt(.,10,32), strings.Split/TrimSpace/ToLower, bufio.Scanner line splitting with the 64 KiB limit, strconv.Unquote on the quoted payload (Model/Parse.lean); time.ParseDuration is a parameter `dur` of the rate theorems (the harness passes the real function's answer)",
             "flag tables regenerated from command/config.go and command/tcp.go by sxfacts (Generated/Flags.lean)",
